@@ -197,6 +197,10 @@ class LScenario:
     #                              thread is active
     guard: bool = True    # which code variant the M1L-Seq MODEL follows: `_dispatch_new` tests the call id under the lock
     #                       (the F50 repair). Generated scenarios take `guard_default()` (a probe of the tree).
+    timeout: int = -1     # `Parallel(timeout=…)` in ticks of the fake clock (one tick per `time.sleep` of the retrieval
+    #                       loop); -1 = None.  `ra == 2` or a timeout = model M1LU (`drv_m1lu`)
+    ctl: tuple = ()       # M1LU: scripted picks of `next(iter(self._jobs_set))` (value v -> element v % len in insertion
+    #                       order, last value repeats, () = always the oldest)
 
     def tokens(self):
         t = [self.nj, int(self.bs_auto), len(self.bs), *self.bs, self.pd_mode, self.pd, self.ra, int(self.abort_drops),
@@ -221,6 +225,20 @@ class LScenario:
     def line_seq(self):
         return " ".join(str(x) for x in self.tokens_seq())
 
+    def tokens_u(self):
+        """Request line of `drv_m1lu` (one call; `generator_unordered` and / or a timeout)."""
+        (n, fail, iterfail), = self.calls
+        return [self.nj, int(self.bs_auto), len(self.bs), *self.bs, self.pd_mode, self.pd, self.ra, int(self.abort_drops),
+                int(self.recheck), self.timeout, len(self.ctl), *self.ctl, 1, n, len(fail), *fail, iterfail,
+                len(self.sched), *self.sched]
+
+    def line_u(self):
+        return " ".join(str(x) for x in self.tokens_u())
+
+    def use_u(self):
+        """Compared with M1LU (`drv_m1lu`): one call with `generator_unordered` and / or a timeout."""
+        return (self.ra == 2 or self.timeout >= 0) and len(self.calls) == 1 and not self.seq_callbacks
+
     def use_seq(self):
         """Compared with M1L-Seq (`drv_m1lseq`) rather than with M1L (`drv_m1l`, one call, every callback its own thread)."""
         return len(self.calls) != 1 or self.seq_callbacks
@@ -229,10 +247,10 @@ class LScenario:
         return dict(nj=self.nj, bs_auto=self.bs_auto, bs=list(self.bs), pd_mode=self.pd_mode, pd=self.pd,
                     pd_expr=self.pd_expr, ra=self.ra, abort_drops=self.abort_drops, recheck=self.recheck,
                     calls=[[n, list(f), i] for (n, f, i) in self.calls], sched=list(self.sched),
-                    seq_callbacks=self.seq_callbacks, guard=self.guard)
+                    seq_callbacks=self.seq_callbacks, guard=self.guard, timeout=self.timeout, ctl=list(self.ctl))
 
     def oracle_only(self):
-        return self.ra == 2 or not self.calls
+        return not self.calls or ((self.ra == 2 or self.timeout >= 0) and not self.use_u())
 
     @staticmethod
     def from_json(d):
@@ -240,7 +258,8 @@ class LScenario:
                          pd_expr=d.get("pd_expr", ""), ra=d["ra"], abort_drops=d["abort_drops"], recheck=bool(d["recheck"]) if "recheck" in d else recheck_default(),
                          calls=tuple((c[0], tuple(c[1]), c[2]) for c in d["calls"]), sched=tuple(d["sched"]),
                          seq_callbacks=bool(d.get("seq_callbacks", False)),
-                         guard=bool(d["guard"]) if "guard" in d else guard_default())
+                         guard=bool(d["guard"]) if "guard" in d else guard_default(),
+                         timeout=int(d.get("timeout", -1)), ctl=tuple(d.get("ctl", ())))
 
 
 # ---------------------------------------------------------------- the scheduler
@@ -426,6 +445,54 @@ class _Shared:
         obj.__dict__.pop(self.slot, None)
 
 
+class _OSet:
+    """Insertion-ordered stand-in for the `set` bound to `Parallel._jobs_set` (M1LU runs only).  `next(iter(s))` of a
+    real set picks an element by hash order (addresses): here the iteration starts at the element the scenario's script
+    `ctl` says (value v -> element v % len in insertion order), so every pick can be forced and the model can follow."""
+
+    def __init__(self, run, items=()):
+        self.run = run
+        self.d = dict.fromkeys(items)
+
+    def add(self, x):
+        self.d[x] = None
+
+    def remove(self, x):
+        del self.d[x]
+
+    def discard(self, x):
+        self.d.pop(x, None)
+
+    def __contains__(self, x):
+        return x in self.d
+
+    def __len__(self):
+        return len(self.d)
+
+    def __iter__(self):
+        run = self.run
+        script = run.sc.ctl
+        v = script[min(run.ctl_i, len(script) - 1)] if script else 0
+        run.ctl_i += 1
+        items = list(self.d)
+        if not items:
+            return iter(())
+        k = v % len(items)
+        return iter(items[k:] + items[:k])
+
+
+class _SharedSet(_Shared):
+    """`_jobs_set` (M1LU runs): an unlocked access is a scheduling point; the set that is bound is made insertion-ordered."""
+
+    def __set__(self, obj, v):
+        run = self.run_of(obj)
+        if run is not None:
+            run.access(self.name, "w")
+            if not isinstance(v, _OSet):
+                v = _OSet(run, v)
+        obj.__dict__[self.slot] = v
+
+
 _CURRENT = [None]  # the LRun in progress (one at a time per process)
 
 
@@ -434,7 +501,8 @@ class _FakeTime:
         self.run = run
 
     def time(self):
-        return 1000.0
+        # the fake clock: one tick per `time.sleep` of the retrieval loop (read by `get_status` for the timeout)
+        return float(self.run.n_sleep)
 
     def sleep(self, _dt):
         self.run.n_sleep += 1
@@ -465,6 +533,8 @@ class LRun:
         self.cb_errors = []
         self.pull_after_abort = []
         self.chooser = None      # optional adaptive policy (acts, run) -> index, instead of `sc.sched` (probes only)
+        self.ctl_i = 0           # M1LU: number of iterations over `_jobs_set` so far (index into `sc.ctl`)
+        self.reg_order = []      # batches (task ids) in the order in which their callbacks entered the registration
 
     # --- instrumentation callbacks
     def access(self, name, rw):
@@ -491,6 +561,7 @@ class LRun:
 
         class Ctl(ParallelBackendBase):
             supports_retrieve_callback = True
+            supports_timeout = True
             uses_threads = True
             supports_sharedmem = True
 
@@ -529,6 +600,7 @@ class LRun:
 
             def retrieve_result_callback(self, out):
                 sched.yield_point("retr")
+                run.reg_order.append(getattr(out, "m1l_ids", None) if isinstance(out, BaseException) else list(out))
                 if isinstance(out, BaseException):
                     raise out
                 return out
@@ -574,6 +646,8 @@ class LRun:
 
         for f in X_FIELDS:
             setattr(P, f, _Shared(f, run_of))
+        if sc.use_u():
+            P._jobs_set = _SharedSet("_jobs_set", run_of)
         saved_status = jp.BatchCompletionCallBack.__dict__.get("status", None)
         jp.BatchCompletionCallBack.status = _Shared("status", run_of)
         saved_time = jp.time
@@ -587,7 +661,8 @@ class LRun:
                 be = Ctl(nesting_level=0)
                 pd = "all" if sc.pd_mode == 1 else (sc.pd_expr if sc.pd_mode == 2 else sc.pd)
                 par = P(n_jobs=sc.nj, backend=be, batch_size=("auto" if sc.bs_auto else sc.bs[0]), pre_dispatch=pd,
-                        return_as=["list", "generator", "generator_unordered"][sc.ra])
+                        return_as=["list", "generator", "generator_unordered"][sc.ra],
+                        timeout=(sc.timeout if sc.timeout >= 0 else None))
                 par._lock = SchedLock(sched)
                 self.par = par
 
@@ -691,6 +766,10 @@ class LRun:
                     out = func()
                 except BaseException as e:  # noqa: BLE001
                     out = e
+                    try:
+                        out.m1l_ids = list(ids)
+                    except Exception:  # noqa: BLE001
+                        pass
                 self.log.append("E:complete " + ",".join(map(str, ids)))
 
                 def cbrun(cb=cb, out=out, bno=bno):
@@ -769,6 +848,25 @@ def gen_scenario(rng, big=False) -> LScenario:
                      abort_drops=rng.random() < 0.6, recheck=recheck_default(), calls=((n, fail, iterfail),), sched=sched)
 
 
+def gen_scenario_u(rng, big=False) -> LScenario:
+    """One call with `return_as='generator_unordered'` and / or a timeout (model M1LU): the single-call generator, then
+    the mode, the timeout in ticks (small, so that caller-first schedules run into it), the script of control-job picks,
+    and for half of the timeout scenarios a stretch that prefers the caller (it waits while the batches are parked)."""
+    import dataclasses
+    sc = gen_scenario(rng, big=big)
+    ra = rng.choice([2, 2, 2, 2, 0, 1])
+    timeout = -1
+    if ra != 2 or rng.random() < 0.5:
+        timeout = rng.choice([0, 0, 1, 1, 2, 3, 5, 8])
+    ctl = tuple(rng.randrange(5) for _ in range(rng.randint(0, 4)))
+    sched = list(sc.sched)
+    if timeout >= 0 and rng.random() < 0.5:
+        k = rng.randrange(len(sched) + 1)
+        p = rng.choice([0.85, 0.95, 1.0])
+        sched[k:k] = [0 if rng.random() < p else rng.randrange(1, 6) for _ in range(rng.randint(20, 40 + 14 * timeout))]
+    return dataclasses.replace(sc, ra=ra, timeout=timeout, ctl=ctl, sched=tuple(sched))
+
+
 def preemptions(log):
     """Number of times a thread that was not finished and not blocked was followed by another thread."""
     k, prev, prev_pt = 0, None, None
@@ -808,9 +906,30 @@ def oracle(run):
         out.append(("executed-twice", f"tasks executed more than once: {twice[:6]}"))
     base = 0
     earlier_raised = False
+    n_sleep = getattr(run, "n_sleep", 0)
+    if sc.timeout >= 0 and len(sc.calls) == 1:
+        w = longest_wait(run.log)
+        o = run.outcomes[0]
+        if w >= sc.timeout + 2 and not (o[0] == "raise" and o[1] == "TimeoutError"):
+            out.append(("timeout-missing", f"the caller looked at one pending result in {w} consecutive sleeping iterations "
+                                           f"while no other thread ran (timeout = {sc.timeout} ticks), but the call ended with {o!r}"))
+    if sc.ra == 2 and len(sc.calls) == 1:
+        o = run.outcomes[0]
+        got = list(o[1]) if o[0] != "raise" else list(o[2])
+        flat = [x for b in getattr(run, "reg_order", []) for x in (b or [])]
+        if got != flat[:len(got)]:
+            out.append(("unordered-order", f"yielded {got[:12]!r}, but the batches registered their completion in the order "
+                                           f"{getattr(run, 'reg_order', [])[:8]!r}"))
     for cno, ((n, fail, iterfail), o) in enumerate(zip(sc.calls, run.outcomes)):
         must_fail = bool(fail) or iterfail >= 0
         where = f"call {cno}: " if len(sc.calls) > 1 else ""
+        if o[0] == "raise" and o[1] == "TimeoutError":
+            # legitimate only with a timeout and after more than `timeout` ticks of the clock (one tick per sleep)
+            if not (sc.timeout >= 0 and n_sleep > sc.timeout):
+                out.append(("spurious-timeout", f"{where}TimeoutError with timeout={sc.timeout} after {n_sleep} sleeps"))
+            earlier_raised = True
+            base += n
+            continue
         if must_fail:
             if o[0] != "raise":
                 what = "task" if any(run.exec_count.get(base + f, 0) for f in fail) else "iterator"
@@ -824,7 +943,7 @@ def oracle(run):
             bad = None
             if o[0] == "raise":
                 bad = f"nothing fails, but the call raised {o[1]}"
-            elif list(o[1]) != list(range(base, base + n)):
+            elif (sorted(o[1]) if sc.ra == 2 else list(o[1])) != list(range(base, base + n)):
                 bad = f"returned {o[1]!r}, expected range({base}, {base + n})"
             if bad:
                 if earlier_raised:
@@ -841,6 +960,33 @@ def oracle(run):
     return out
 
 
+def longest_wait(log):
+    """Largest number of CONSECUTIVE iterations of the retrieval loop that read the status of a result and then slept,
+    inside a stretch of the log in which only the caller ran (so it is the same, still pending, head / control job, and
+    its counter started at the first of these iterations at the latest).  Reads only the kinds of scheduling points."""
+    best = cnt = 0
+    saw_status = False
+    for e in log:
+        if ":" not in e:
+            continue
+        tid, rest = e.split(":", 1)
+        if tid != "0":
+            cnt, saw_status = 0, False
+            continue
+        pt = rest.rsplit(">", 1)[-1]
+        if pt == "r:_jobs":
+            saw_status = False
+        elif pt == "r:status":
+            saw_status = True
+        elif pt == "acq":
+            cnt = 0
+        elif pt == "sleep":
+            cnt = cnt + 1 if saw_status else 0
+            saw_status = False
+            best = max(best, cnt)
+    return best
+
+
 # which property an oracle signature belongs to (run_lock_scenarios reports a failure to `prop` only if listed)
 SIG_PROPS = {
     "hang": ("C01", "C04", "C16"), "deadlock": ("C01", "C04", "C16"), "stuck": ("C01", "C04", "C16"), "no-outcome": ("C01", "C04", "C16"),
@@ -848,6 +994,7 @@ SIG_PROPS = {
     "error-swallowed:iterator": ("C04",), "error-swallowed:task": ("C04",), "wrong-exception": ("C04",),
     "callback-exception": ("C04",), "stale-dispatch-new": ("C04", "C16"),
     "iterator-reentered": ("C09",), "pull-without-lock": ("C09",), "pull-after-abort": ("C09",),
+    "unordered-order": ("C16",), "timeout-missing": ("C04",), "spurious-timeout": ("C04",),
 }
 
 
@@ -987,13 +1134,15 @@ class _Slim:
         self.pull_not_owner = r.pull_not_owner
         self.pull_after_abort = r.pull_after_abort
         self.cb_errors = r.cb_errors
+        self.reg_order = r.reg_order
+        self.n_sleep = r.n_sleep
 
 
 def _slim_to_json(r):
     return dict(log=r.log, status=r.status, outcomes=[list(o) for o in r.outcomes], steps=r.steps,
                 exec_count=[[k, v] for k, v in r.exec_count.items()], reentered=r.reentered,
                 pull_not_owner=[list(x) for x in r.pull_not_owner], pull_after_abort=list(r.pull_after_abort),
-                cb_errors=[list(x) for x in r.cb_errors])
+                cb_errors=[list(x) for x in r.cb_errors], reg_order=r.reg_order, n_sleep=r.n_sleep)
 
 
 class _FromJson:
@@ -1008,6 +1157,8 @@ class _FromJson:
         self.pull_not_owner = [tuple(x) for x in d["pull_not_owner"]]
         self.pull_after_abort = d["pull_after_abort"]
         self.cb_errors = [tuple(x) for x in d["cb_errors"]]
+        self.reg_order = d.get("reg_order", [])
+        self.n_sleep = d.get("n_sleep", 0)
 
 
 def _worker_main():
@@ -1026,6 +1177,16 @@ def _seq_driver():
         ok, log = core.lake_build(["drv_m1lseq"])
         if not ok:
             raise core.InfraError("m1_lock: cannot build drv_m1lseq: " + log[-400:])
+    return d
+
+
+def _u_driver():
+    """The driver of the unordered / timeout model M1LU; built on demand."""
+    d = core.Driver("M1LU")
+    if not d.exe.exists():
+        ok, log = core.lake_build(["drv_m1lu"])
+        if not ok:
+            raise core.InfraError("m1_lock: cannot build drv_m1lu: " + log[-400:])
     return d
 
 
@@ -1070,11 +1231,15 @@ def run_batch(scs, driver, parallel=True, workers=8):
     else:
         runs = [_Slim(run_scenario(sc)) for sc in scs]
     replies = [None] * len(scs)       # None = oracle-only scenario (generator_unordered): not in the models
-    idx = [i for i, sc in enumerate(scs) if not sc.oracle_only() and not sc.use_seq()]
+    idx = [i for i, sc in enumerate(scs) if not sc.oracle_only() and not sc.use_seq() and not sc.use_u()]
     got = driver.run([scs[i].line() for i in idx]) if idx else []
     for i, m in zip(idx, got):
         replies[i] = m
-    idx = [i for i, sc in enumerate(scs) if not sc.oracle_only() and sc.use_seq()]
+    idx = [i for i, sc in enumerate(scs) if not sc.oracle_only() and sc.use_u()]
+    got = _u_driver().run([scs[i].line_u() for i in idx]) if idx else []
+    for i, m in zip(idx, got):
+        replies[i] = m
+    idx = [i for i, sc in enumerate(scs) if not sc.oracle_only() and sc.use_seq() and not sc.use_u()]
     got = _seq_driver().run([scs[i].line_seq() for i in idx]) if idx else []
     for i, m in zip(idx, got):
         replies[i] = m
@@ -1088,7 +1253,8 @@ def _account(res, prop, sc, r, mlog, seen, stream):
     case = dict(kind="m1l", **sc.to_json())
     if mlog is not None:
         if ilog != mlog:
-            res.diverge("m1l-steplog", case, _first_diff(ilog, mlog, "impl"), _first_diff(mlog, ilog, "model"))
+            res.diverge("m1lu-steplog" if sc.use_u() else "m1l-steplog", case, _first_diff(ilog, mlog, "impl"),
+                        _first_diff(mlog, ilog, "model"))
         else:
             res.traces_validated += 1
     for sig, detail in oracle(r):
@@ -1120,7 +1286,7 @@ def run_lock_scenarios(ctx, res, prop, n_quick=800, n_thorough=24000, budget_qui
         _account(res, prop, sc, r, mlog, seen, "m1l-corpus")
     done = 0
     chunk = 800
-    while done < n and _time.time() - t0 < budget * 0.7:
+    while done < n and _time.time() - t0 < budget * 0.5:
         scs = [gen_scenario(rng, big=ctx.thorough) for _ in range(min(chunk, n - done))]
         for sc, r, mlog in run_batch(scs, driver):
             done += 1
@@ -1128,6 +1294,24 @@ def run_lock_scenarios(ctx, res, prop, n_quick=800, n_thorough=24000, budget_qui
             res.count(f"m1l-outcome-{r.outcomes[0][0] if r.outcomes else r.status}")
             if done <= 3:
                 res.sample(dict(m1l=sc.to_json(), steps=r.steps, preemptions=pre))
+    # one call with generator_unordered and / or a timeout: compared step by step with the model M1LU
+    n_u = max(n // 2, 128)
+    udone = 0
+    u_timeouts = 0
+    while udone < n_u and _time.time() - t0 < budget * 0.75:
+        scs = [gen_scenario_u(rng, big=ctx.thorough) for _ in range(min(chunk, n_u - udone))]
+        for sc, r, mlog in run_batch(scs, driver):
+            udone += 1
+            _account(res, prop, sc, r, mlog, seen, "m1lu-scenarios")
+            o = r.outcomes[0] if r.outcomes else (r.status,)
+            if o[0] == "raise" and o[1] == "TimeoutError":
+                u_timeouts += 1
+                res.count("m1lu-outcome-TimeoutError")
+            else:
+                res.count(f"m1lu-outcome-{o[0]}")
+            res.count("m1lu-unordered" if sc.ra == 2 else "m1lu-ordered-with-timeout")
+            if udone <= 2:
+                res.sample(dict(m1lu=sc.to_json(), steps=r.steps))
     n_multi = max(n // 2, 128)
     mdone = 0
     stale_steps = 0
@@ -1152,7 +1336,9 @@ def run_lock_scenarios(ctx, res, prop, n_quick=800, n_thorough=24000, budget_qui
                      f"unlocked-access granularity compared step by step with the model M1L (variant recheck={recheck_default()}) "
                      f"+ {mdone} multi-call runs (2-4 calls on one object, callbacks of aborted calls kept alive; {stale_steps} "
                      f"steps of threads of earlier calls) compared step by step with the model M1L-Seq (variant "
-                     f"dispatch_new_guard={guard_default()}); {len(seen)} distinct interleavings with >= 3 pre-emptions; "
+                     f"dispatch_new_guard={guard_default()}) + {udone} single-call runs with generator_unordered and / or a "
+                     f"timeout in fake-clock ticks ({u_timeouts} ended in TimeoutError) compared step by step with the model "
+                     f"M1LU; {len(seen)} distinct interleavings with >= 3 pre-emptions; "
                      f"wall {_time.time() - t0:.1f}s")
     return res
 
@@ -1204,6 +1390,7 @@ def main(argv=None):
     ap.add_argument("--seed", type=int, default=0)
     ap.add_argument("--big", action="store_true")
     ap.add_argument("--multi", action="store_true", help="multi-call scenarios (model M1L-Seq) instead of single-call ones")
+    ap.add_argument("--u", action="store_true", help="generator_unordered / timeout scenarios (model M1LU)")
     ap.add_argument("--replay", help="json file with a scenario (as printed in a failure)")
     ap.add_argument("--trace", action="store_true", help="print the step log of the replayed scenario")
     ap.add_argument("--worker", action="store_true", help=argparse.SUPPRESS)
@@ -1235,6 +1422,8 @@ def main(argv=None):
     while left > 0:
         if a.multi:
             scs = [gen_multicall(rng) if i % 3 == 0 else gen_multicall_alive(rng) for i in range(min(400, left))]
+        elif a.u:
+            scs = [gen_scenario_u(rng, big=a.big) for _ in range(min(400, left))]
         else:
             scs = [gen_scenario(rng, big=a.big) for _ in range(min(400, left))]
         left -= len(scs)
@@ -1249,6 +1438,8 @@ def main(argv=None):
             for sig, detail in oracle(r):
                 res.fail("m1l:" + sig, case, detail)
             res.count(f"outcome-{r.outcomes[0][0] if r.outcomes else r.status}")
+            if r.outcomes and r.outcomes[0][0] == "raise":
+                res.count("raise-" + r.outcomes[0][1].split("(")[0])
             if preemptions(r.log) >= 3:
                 seen.add(hash(ilog))
     sigs = {}
